@@ -46,6 +46,8 @@
 #include <limits>
 #include <locale>
 #include <sstream>
+#include <streambuf>
+#include <ostream>
 #include <stdexcept>
 #include <string>
 #include <tuple>
@@ -58,6 +60,9 @@ namespace
 enum class color { red, green, blue, fcppt_maximum = blue };
 enum class single { only, fcppt_maximum = only };
 enum class longer : std::uint8_t { a, ab, abc, b, ba, c, x_1, fcppt_maximum = x_1 };
+// names handed out as sub-views of ONE packed table: a std::string_view is not NUL-terminated at its
+// end (what follows "north" in memory is "eastsouthwest")
+enum class packed { north, east, south, west, fcppt_maximum = west };
 }
 namespace fcppt::enum_
 {
@@ -71,6 +76,22 @@ struct to_string_impl<color>
       FCPPT_ENUM_TO_STRING_CASE(color, red);
       FCPPT_ENUM_TO_STRING_CASE(color, green);
       FCPPT_ENUM_TO_STRING_CASE(color, blue);
+    }
+    FCPPT_ASSERT_UNREACHABLE;
+  }
+};
+template <>
+struct to_string_impl<packed>
+{
+  static std::string_view get(packed const v)
+  {
+    static constexpr std::string_view table{"northeastsouthwest"};
+    switch (v)
+    {
+    case packed::north: return table.substr(0, 5);
+    case packed::east: return table.substr(5, 4);
+    case packed::south: return table.substr(9, 5);
+    case packed::west: return table.substr(14, 4);
     }
     FCPPT_ASSERT_UNREACHABLE;
   }
@@ -321,6 +342,69 @@ Reg const r_text8{"text_8_bit_weak", Kind::exhaustive, "every value (character t
                     }
                   }};
 
+// -------------------------------------------------------------------- io::write into a sink that fills up
+// "Conversions never silently truncate: they return the complete result or report failure." A sink
+// with room for `cap` bytes receives 32-bit values one after the other: a write after which the
+// stream is still good has put all its bytes into the sink (and the value reads back); a write that
+// could not be completed leaves the stream in a failed state.
+class bounded_buf : public std::streambuf
+{
+public:
+  explicit bounded_buf(std::size_t cap) : cap_(cap) {}
+  std::string const &bytes() const { return data_; }
+
+protected:
+  std::streamsize xsputn(char const *s, std::streamsize n) override
+  {
+    std::streamsize done = 0;
+    while (done < n && data_.size() < cap_) data_.push_back(s[done++]);
+    return done;
+  }
+  int_type overflow(int_type ch) override
+  {
+    if (traits_type::eq_int_type(ch, traits_type::eof())) return traits_type::not_eof(ch);
+    if (data_.size() >= cap_) return traits_type::eof();
+    data_.push_back(traits_type::to_char_type(ch));
+    return ch;
+  }
+
+private:
+  std::size_t cap_;
+  std::string data_;
+};
+void bounded_sink_case(std::size_t cap, bool big)
+{
+  std::endian const order = big ? std::endian::big : std::endian::little;
+  std::uint32_t const values[] = {0x01020304U, 0xdeadbeefU, 0x00000080U, 0xffffffffU};
+  count(cap % 4 != 0 || cap < 16);
+  bounded_buf buf(cap);
+  std::ostream os(&buf);
+  std::size_t reported = 0;
+  for (std::uint32_t v : values)
+  {
+    fcppt::io::write(os, v, order);
+    if (!os) break;
+    ++reported;
+  }
+  std::string const ctx = "sink with room for " + std::to_string(cap) + " bytes, four 32-bit values, " + (big ? "big" : "little") + " endian";
+  if (buf.bytes().size() < reported * 4)
+    fail("io::write|short-write-not-reported", ctx + ": " + std::to_string(reported) + " writes left the stream good but only " + std::to_string(buf.bytes().size()) + " bytes arrived");
+  else
+  {
+    std::istringstream is(buf.bytes().substr(0, reported * 4));
+    for (std::size_t i = 0; i < reported; ++i)
+    {
+      auto const r = fcppt::io::read<std::uint32_t>(is, order);
+      if (!r.has_value() || r.get_unsafe() != values[i]) { fail("io::read|round-trip|bounded-sink", ctx + ": value #" + std::to_string(i) + " reported as written does not read back"); break; }
+    }
+  }
+  if (reported < 4 && cap >= (reported + 1) * 4) fail("io::write|failure-although-room", ctx + ": write #" + std::to_string(reported) + " failed although the sink had room");
+}
+Reg const r_bounded{"io_write_bounded_sink", Kind::exhaustive, "the sink cannot take all four values, or ends inside a value",
+                    [] { for (i64 cap = 0; cap <= 17; ++cap) for (i64 b = 0; b < 2; ++b) { cur2(cap, b); bounded_sink_case(static_cast<std::size_t>(cap), b != 0); } },
+                    [](Ints const &c) { bounded_sink_case(static_cast<std::size_t>(static_cast<u64>(c.at(0)) % 18), c.at(1) % 2 != 0); },
+                    [](Ints const &c) { return "io::write of four 32-bit values (" + std::string(c.at(1) % 2 != 0 ? "big" : "little") + " endian) into a sink with room for " + std::to_string(static_cast<u64>(c.at(0)) % 18) + " bytes"; }};
+
 // -------------------------------------------------------------------- enums
 template <typename E>
 void enum_all(char const *ename, std::vector<std::string> const &names)
@@ -373,11 +457,13 @@ Reg const r_enum{"enum_text", Kind::exhaustive, "enum has >= 2 enumerators (name
                    enum_all<color>("color", {"red", "green", "blue"});
                    enum_all<single>("single", {"only"});
                    enum_all<longer>("longer", {"a", "ab", "abc", "b", "ba", "c", "x_1"});
+                   enum_all<packed>("packed", {"north", "east", "south", "west"});
                  },
                  [](Ints const &) {
                    enum_all<color>("color", {"red", "green", "blue"});
                    enum_all<single>("single", {"only"});
                    enum_all<longer>("longer", {"a", "ab", "abc", "b", "ba", "c", "x_1"});
+                   enum_all<packed>("packed", {"north", "east", "south", "west"});
                  }};
 
 // -------------------------------------------------------------------- vector / dim text
